@@ -1442,6 +1442,9 @@ func reflectTag(tag, key string) string {
 
 // resultsUntouched: no element store, sort or reslice of the results between SpokFile.Run and its uses.
 func resultsUntouched(c *Ctx, v ssa.Value) string {
+	if why := c.sliceMutation(v, 3, map[ssa.Value]bool{}, "the results"); why != "" {
+		return why
+	}
 	for _, ref := range valueReferrers(v) {
 		switch x := ref.(type) {
 		case *ssa.IndexAddr:
